@@ -71,6 +71,11 @@ def main():
                 if edits[-1].startswith("CHG delcol"):
                     n -= 1
                     del lo_[j], up_[j]
+            if (li + hi) % 4 == 3 and m > 1:
+                # the delete call that may keep basis and cache (row with a basic logical), answered by the primal entry point from the cache
+                lines = ["CASE %s" % cid, lp_block(lp), "SOLVE %s" % ck.rng.choice(ENTRIES)]
+                edits = ["CHG delbasicrow %d" % ck.rng.randrange(4)]
+                cfg = dict(entry="PRIMAL", warm="none")
             lines += edits + ["SOLVE " + cfg["entry"], "ACCESS", "GETBASIS", "DUMP"]
             cases.append((cid, "\n".join(lines) + "\n"))
             meta[cid] = (dict(lp, name=lp["name"] + "+edits", edits=edits), cfg)
